@@ -52,7 +52,6 @@ def _install_twins():
                                            "forget_call", "forget_function", "forget_everything"), ()),
         (m.StorageBackend, ("get_memento",), ()),
         (_storage_memory.MemoryStorageBackend, None, ("__init__", "to_dict")),
-        (_runner_local.LocalRunnerBackend, ("batch_run",), ()),
         (_call_stack.CallStack, None, ("__init__",)),
         (_base.MementoFunctionBase, ("call", "__call__"), ()),
         (_memento.MementoFunction, ("call", "_filter_call"), ()),
@@ -61,10 +60,12 @@ def _install_twins():
         d, r = gen.register_class(cls, names, ex)
         done += d
         refused += r
-    for f in (_runner_local._mutex_for_invocation, _runner_local.memento_run_batch, _runner_local.memento_run_local,
-              _runner_local.propagate_dependencies, _runner.process_existing_memento):
-        gen.register(f)
-        done.append(f.__name__)
+    # runner_local: every function and method defined in the module (helpers added later are picked up automatically)
+    d, r = gen.register_module(_runner_local, exclude=("__init__", "to_dict"))
+    done += d
+    refused += r
+    gen.register(_runner.process_existing_memento)
+    done.append("process_existing_memento")
     _INSTALLED.update(done=True, twins=done, refused=refused)
     if refused:
         raise RuntimeError("could not instrument: %s" % refused)
@@ -77,7 +78,10 @@ def _scan_for_uninstrumented_locks():
     import inspect
 
     pkg = os.path.dirname(m.__file__)
-    inst = {(f.__code__.co_filename, f.__code__.co_firstlineno) for f in gen.REG["G"]}
+    inst = set()
+    for f in gen.REG["G"]:
+        code = getattr(f, "__wrapped__", f).__code__
+        inst.add((code.co_filename, code.co_firstlineno))
     bad = []
     for fn in sorted(os.listdir(pkg)):
         if not fn.endswith(".py") or fn == "runner_test.py":
